@@ -5,6 +5,7 @@ import codec_gen as G
 ID = "C07"
 CRATE = "hz"
 RUN_MODULE = "DBus.Run"
+TRANSLATORS = ["gen_depth_consts.py"]
 RULE = ("towers of containers built from words over {a (array), ( (struct), v (variant), { (dict)}: every mix of run lengths around the "
         "limits (31/32/33 arrays, 31/32/33 structs, totals 63/64/65 with variants), in several orders, encoded (ser), encoded then decoded "
         "(rt), and their valid encodings decoded directly; expected: success within 32/32/64, a depth error beyond. "
